@@ -99,9 +99,10 @@ def lib_pack(pkt):
 class Bench:
     """One generated family with its loaded variants."""
 
-    def __init__(self, fam, variants, directory, instrument=("g",)):
+    def __init__(self, fam, variants, directory, instrument=("g",), local=False):
         self.fam = fam
-        self.loaded = render.load_family(fam, variants, directory)
+        self.local = local
+        self.loaded = render.load_family(fam, variants, directory, local=local)
         self.rec = monitors.Recorder()
         for v in variants:
             for name, cls in self.loaded.classes(v).items():
@@ -139,8 +140,9 @@ class Bench:
 def try_family(rng, profile, variants, directory, instrument=("g",), max_tries=5):
     """Generate + define a family. A family that cannot be defined is returned as (None, fam, exc)."""
     fam = spec.gen_family(rng, profile)
+    local = bool(profile and profile.get("p_local_classes", 0) > rng.random())
     try:
-        b = Bench(fam, variants, directory, instrument)
+        b = Bench(fam, variants, directory, instrument, local=local)
     except RecursionError:
         raise
     except Exception as e:
